@@ -748,11 +748,17 @@ class PolyhedralTermList(TermList):  # noqa: WPS338
         logging.debug("Starting simplification procedure")
         logging.debug("Simplifying terms: %s", self)
         logging.debug("Context: %s", context)
+        # terms without variables (0 <= c) are set aside: they are redundant when c >= 0 and make the system unsatisfiable
+        # otherwise, and a system made of such terms only has no matrix to reduce
+        this, this_unsatisfiable = self._split_variable_free_terms()
+        that, that_unsatisfiable = context._split_variable_free_terms() if context else (None, False)
+        if this_unsatisfiable or that_unsatisfiable:
+            raise ValueError("The constraints \n{}\n".format(self) + "are unsatisfiable in context \n{}".format(context))
         if context:
-            new_self = self - context
-            result = PolyhedralTermList.termlist_to_polytope(new_self, context)
+            new_self = this - that
+            result = PolyhedralTermList.termlist_to_polytope(new_self, that)
         else:
-            result = PolyhedralTermList.termlist_to_polytope(self, PolyhedralTermList())
+            result = PolyhedralTermList.termlist_to_polytope(this, PolyhedralTermList())
 
         variables = result[0]
         self_mat = result[1]
